@@ -270,7 +270,7 @@ class EngineBase:
 
     def as_lval(self, st, v, ety=None):
         """list-like python value -> LVal (coercing element type when a literal)"""
-        if isinstance(v, (Cell, FldList, LVal)):
+        if isinstance(v, (Cell, FldList, LVal)) or type(v).__name__ == "DictEntryList":
             lv = self.get_list(st, v)
             if ety is not None and sort_of(lv.ety) != sort_of(ety):
                 raise Unsupported("list element type mismatch %r vs %r" % (lv.ety, ety))
@@ -370,6 +370,12 @@ class EngineBase:
         i = z3.Const("i!bb", z3.IntSort())
         rng = arr.sort().range()
         out = []
+        if key is not None and key.endswith("#dom") and isinstance(rng, z3.ArraySortRef) and rng.domain() == RefS:
+            # keys of a dict are objects that exist
+            kk = z3.Const("k!bb", RefS)
+            el = z3.Select(z3.Select(arr, x), kk)
+            out.append(z3.ForAll([x, kk], z3.Implies(el, z3.And(kk != NULL, birth(kk) <= bound)), patterns=[el]))
+            return out
         ty = self.key_type(key) if key else None
         if ty is not None and key is not None and not key.endswith(("#n", "#none")):
             if ty[0] == "list" or (ty[0] == "opt" and ty[1][0] == "list"):
